@@ -11,6 +11,7 @@ import Driver.C04
 import Driver.C18
 import Driver.C20
 import Driver.C12
+import Driver.C19
 
 def main (args : List String) : IO UInt32 := do
   match args with
@@ -27,4 +28,5 @@ def main (args : List String) : IO UInt32 := do
   | "C18" :: rest => DriverC18.main rest; return 0
   | "C20" :: rest => DriverC20.main rest; return 0
   | "C12" :: rest => DriverC12.main rest; return 0
+  | "C19" :: rest => DriverC19.main rest; return 0
   | _ => IO.eprintln "usage: gvdriver <Cxx> [mode] < history"; return 2
